@@ -1,6 +1,6 @@
 """C03 (compile accepts exactly the language) and C04 (precedence / projection extent)."""
 import json, os, subprocess
-import common
+import common, eng_eval
 from common import tlc, tlc_ok, tlc_must_fail, build_driver, run_driver, judge, ToolError, log
 
 WHY = {"C03": {"accept", "errclass", "compile"}, "C04": {"tree", "paren", "results"}, "C12": {"coords", "errclass"}}
@@ -79,7 +79,7 @@ def run(prop, tier, seed, work, ev):
         c = work.path("wrap.cases")
         gen(work, "wrap", c, t["wrapN"])
         rejects += run_and_judge("parentheses around every span of every sentence <= %d tokens" % t["wrapN"], c, work, ev, drv, prop)
-        c = pool_texts(work, {"litop", "keyword", "hash", "bool", "errpair", "compose", "confuse", "deep", "alias", "nest"})
+        c = pool_texts(work, {"litop", "keyword", "hash", "bool", "errpair", "compose", "confuse", "deep", "alias", "nest"} | set(eng_eval.R6))
         rejects += run_and_judge("the texts of the hand-shaped evaluation families (literal operands, keyword-like names, hashes, formulas, compositions)", c, work, ev, drv, prop)
         c = work.path("ws.cases")
         gen(work, "ws", c, 3)
@@ -116,7 +116,7 @@ def run(prop, tier, seed, work, ev):
         gen(work, "wrap", c, t["wrapN"])
         rejects += run_and_judge("explicit parentheses around every span of every sentence <= %d tokens: the tree is that of the grouped reading" % t["wrapN"],
                                  c, work, ev, drv, prop)
-        c = pool_texts(work, {"litop", "keyword", "hash", "bool", "deep", "alias", "nest", "inflate"})
+        c = pool_texts(work, {"litop", "keyword", "hash", "bool", "deep", "alias", "nest", "inflate"} | set(eng_eval.R6))
         rejects += run_and_judge("the texts of the hand-shaped evaluation families: tree of each", c, work, ev, drv, prop)
         toks = work.path("rtoks.in")
         e = dict(os.environ, GEN_MAXLEN=str(t["maxlen"]))
